@@ -265,4 +265,32 @@ theorem gaussian_build_run_counterexample :
 example : (∀ op ∈ ([.xgate (3 / 5) true 2, .homodyne 1 0 (some (1 / 2)) 0, .vgate (1 / 3) false 1] : List (FOp Rat Nat)),
     isGaussianPrep op = false) := by decide
 
+/-! ## part 3: decisions against absolute tolerances -/
+
+/-- **purity_decision_invariant**: the purity flag in the normalised form `|det(V/(hbar/2)) − 1| < tol` (`Gaussian.__init__`,
+and `BaseGaussianState.__init__` after the fix) is invariant under the change of convention `V ↦ t²·V`, `hbar ↦ t²·hbar`, for
+every tolerance, every matrix size and every determinant routine; in particular a state object built at `s` from hbar = 2
+data decides like the hbar = 2 object -/
+theorem purity_decision_invariant {K : Type} [Field K] [LinearOrder K] [IsStrictOrderedRing K]
+    (det : List (List K) → K) (tol s t : K) (hs : s ≠ 0) (ht : t ≠ 0) (V : List (List K)) :
+    pureNormalised det tol (s * t) (V.map fun row => row.map fun v => v * (t * t)) = pureNormalised det tol s V := by
+  classical
+  exact pureNormalised_rescale det tol s t hs ht V
+
+/-- the un-normalised form `|det V − (hbar/2)^(2N)| < tol` is not: the weakly mixed one-mode state `V₀ = 1.0001·1`
+(`det V₀ − 1 = 2·10⁻⁴`, two hundred times the tolerance `10⁻⁶`) is flagged mixed at `s = 1` and pure at `s = 1/5`; for a
+three-mode thermal state with `det V₀ − 1 ≈ 0.6` the same happens at `s = 1/5`.  The normalised form decides both correctly. -/
+theorem purity_unnormalised_counterexample :
+    let V1 : List (List Rat) := [[10001 / 10000, 0], [0, 10001 / 10000]]
+    let V3 : List (List Rat) := (List.range 6).map fun i => (List.range 6).map fun j => if i = j then 13 / 12 else 0
+    let sc (t : Rat) (V : List (List Rat)) := V.map fun row => row.map fun v => v * (t * t)
+    pureUnnormalised detL (1 / 1000000) 1 V1 = false ∧ pureUnnormalised detL (1 / 1000000) (1 / 5) (sc (1 / 5) V1) = true ∧
+    pureUnnormalised detL (1 / 1000000) 1 V3 = false ∧ pureUnnormalised detL (1 / 1000000) (1 / 5) (sc (1 / 5) V3) = true ∧
+    pureNormalised detL (1 / 1000000) (1 / 5) (sc (1 / 5) V1) = false ∧
+    pureNormalised detL (1 / 1000000) (1 / 5) (sc (1 / 5) V3) = false := by
+  decide +kernel
+
+example : pureNormalised detL (1 / 1000000 : Rat) (3 / 2) [[9 / 4 * 2, 0], [0, 9 / 4 * (1 / 2)]] = true ∧
+    pureNormalised detL (1 / 1000000 : Rat) 1 [[2, 0], [0, 1 / 2]] = true := by decide +kernel
+
 end SFV.C15
